@@ -130,7 +130,9 @@ Definition spec_quantile (q : fval) (l : list fval) : fval :=
            let lo := qfloor rank in
            let hi := Z.min (n - 1) (lo + 1) in
            let w := (rank - inject_Z lo)%Q in
-           fadd ovf64 (fmul ovf64 (kth l lo) (FFin (1 - w))) (fmul ovf64 (kth l hi) (FFin w))
+           (* a rank that is a whole number designates that value itself *)
+           if Qeq_bool w 0 then kth l lo
+           else fadd ovf64 (fmul ovf64 (kth l lo) (FFin (1 - w))) (fmul ovf64 (kth l hi) (FFin w))
   end.
 
 Definition post_rnd (v : fval) : fval := match v with FFin q => rnd ovf64 q | _ => v end.
